@@ -10,20 +10,27 @@ from harness.common import VERIF, Ck, coq_list, coq_str, parse_coq_N_list, parse
 from translate import c02_tables
 
 MANIFEST = dict(
-    technique='Rocq proof generic over the escape tables (induction over the string; tables regenerated from tokenizer.py '
-              'and their side conditions kernel-checked) + exhaustive code-point / small-scope correspondence + oracle search',
+    technique='Rocq proof generic over the escape tables (induction over the string; tables AND the shape of escape_text regenerated '
+              'from tokenizer.py, side conditions kernel-checked) + exhaustive code-point / small-scope correspondence + in-kernel '
+              'small-scope enumeration of the model of the code + oracle search',
     text='Theorems in Props/C02.v, for every string (list of code points), both multiline modes, every option vector with '
          'allow_escapes, any starting line and any text following the closing quote: tokenizing DQ+escape(s)+DQ yields exactly '
          'STRING s then EOF for ever (flat input and the chunked reader state of the real class, any chunking); the escaped '
          'text decomposes into raw characters and backslash+symbol units whose raw units are never a double quote or CR, and '
-         'in single-line mode contains no LF/CR at all. The theorems are generic over the tables; the conditions '
+         'in single-line mode contains no LF/CR at all. escape_text itself is translated into a pipeline of whole-string steps '
+         '(regex substitution with the table callback, str.replace, each conditional on multiline); if the steps of a mode are '
+         'exactly one substitution (obligation escape_text_is_one_table_substitution_*) the pipeline IS the per-character model '
+         '(c02_escape_text_is_charwise) and the inverse law holds for the function as written (c02_escape_text_tokenize_inverse); a '
+         'post-processing pipeline is refuted by a computed witness. The theorems are generic over the tables; the conditions '
          '(every escape decodes back, no symbol is a line feed, DQ/CR/backslash always escaped, LF escaped in single-line mode, '
          'DQ is not an operator) are discharged by vm_compute for the tables regenerated from the source on every run. '
-         'escape_text is compared with the model on every code point 0..0x10FFFF in both modes and on all strings over the '
-         '14-character escape alphabet up to length 4; the string-reading loop of the model is compared with the real '
-         'Tokenizer on every text DQ+w, w over that alphabet up to length 4, with and without escapes.',
+         'The model of the code (pipeline + tokenizer model) is enumerated inside Coq on all strings over the 14-character escape '
+         'alphabet up to length 3 (any counterexample is replayed on the implementation); escape_text is compared with the model on '
+         'every code point 0..0x10FFFF in both modes and on all strings over that alphabet up to length 4; the string-reading '
+         'loop of the model is compared with the real Tokenizer on every text DQ+w, w up to length 4, with and without escapes.',
     note='Trusted: Coq kernel + vm_compute (incl. primitive Uint63 for checksums), translate/c02_tables.py, the hand model '
-         'Text/Tokenizer.v of _handle_string/_get_token (tied by exhaustive small-scope differential runs), CPython re/str. '
+         'Text/Tokenizer.v of _handle_string/_get_token (tied by exhaustive small-scope differential runs), CPython re/str '
+         '(a regex that is an alternation of single characters substitutes per character; str.replace is leftmost non-overlapping). '
          'The Cython twins (_tokenizer.pyx) cannot be built here and are not covered. Embedding in VMF/BSP/DMX files is '
          'covered only through the compositional theorem (any rest of input) and Tokenizer/Keyvalues.parse-level search.',
 )
@@ -238,12 +245,37 @@ def search(ck: Ck, escalate: bool) -> None:
 
 
 # ------------------------------------------------------------------------------------------------ correspondence
+def model_counterexamples(ck: Ck) -> None:
+    """Small-scope search INSIDE Coq on the model of the code (escape_text pipeline as translated + tokenizer model):
+    strings over the escape alphabet up to length 3 that do not round-trip.  A witness found by the model is then
+    run against the implementation; if it fails there too it is reported as a concrete violation."""
+    alpha = U.coq_chars(ord(c) for c in ESC_ALPHA)
+    vals = ck.coq_eval(U.IMPORTS, [f'roundtrip_counterexamples false {alpha} 3', f'roundtrip_counterexamples true {alpha} 3'],
+                       name='modelcex', preamble=U.PRE)
+    n = 2 * sum(len(ESC_ALPHA) ** k for k in range(4))
+    ck.count('model_roundtrip_small_scope', n)
+    if vals is None:
+        ck.obligation('instance:escape_text_model_roundtrips_small_scope', False, 'model could not be evaluated')
+        ck.tie_broken.append('in-kernel round-trip enumeration could not be evaluated')
+        return
+    wit = [(ml, ''.join(map(chr, w))) for ml, v in zip((False, True), vals) for w in parse_coq_nested(v)]
+    ck.obligation('instance:escape_text_model_roundtrips_small_scope', not wit,
+                  f'in-kernel enumeration (escape_text pipeline as translated from the source + tokenizer model) of all {n} strings over the '
+                  f'escape alphabet up to length 3 x 2 modes: ' + ('every one tokenizes back to itself' if not wit else
+                  f'{len(wit)} counterexamples, shortest: multiline={wit[0][0]} s={wit[0][1]!r}'))
+    if wit:
+        ck.tie_broken.append('the model of escape_text read from the source does not round-trip')
+        ck.extra['model_counterexamples'] = [{'multiline': ml, 's': s} for ml, s in wit[:10]]
+        for ml, s in wit[:3]:
+            r = oracle(s, ml)
+            if r is not None:
+                report(ck, s, ml, r)
+
+
 def corr_codepoints(ck: Ck) -> None:
     """escape_text vs Escape.esc_char on EVERY code point, both modes."""
     from srctools.tokenizer import escape_text
-    vals = ck.coq_eval(U.IMPORTS, [
-        'map (fun c => (c, esc_char gen_tables false c, esc_char gen_tables true c)) (map snd (esc_table gen_tables))'],
-        name='codepoints', preamble=U.PRE)
+    vals = ck.coq_eval(U.IMPORTS, ['codepoint_table'], name='codepoints', preamble=U.PRE)
     if vals is None:
         ck.obligation('correspondence:escape_codepoints', False, 'model could not be evaluated')
         ck.tie_broken.append('correspondence escape_text code points: model evaluation failed')
@@ -253,7 +285,7 @@ def corr_codepoints(ck: Ck) -> None:
     for c in range(0x110000):
         s = chr(c)
         got = (tuple(map(ord, escape_text(s, False))), tuple(map(ord, escape_text(s, True))))
-        want = model.get(c, ((c,), (c,)))      # c02_escape_identity_elsewhere: the model is the identity off the table's values
+        want = model.get(c, ((c,), (c,)))      # every step copies a character that is neither a value of ESCAPES nor part of a replace pattern
         if got != want:
             bad.append((c, got, want))
         if got != ((c,), (c,)):
@@ -301,14 +333,13 @@ def corr_escape_strings(ck: Ck, escalate: bool) -> None:
         ck.count('escape_strings_random')
         if s != cases[-1][2]:
             ck.seen(('es', ml, s))
-    pre = U.PRE + '''Fixpoint nl_eqb (a b : list N) : bool := match a, b with [], [] => true | x :: a', y :: b' => N.eqb x y && nl_eqb a' b' | _, _ => false end.
-Fixpoint bad_idx {A} (f : A -> bool) (n : N) (l : list A) : list N := match l with [] => [] | x :: r => (if f x then [] else [n]) ++ bad_idx f (n + 1) r end.
+    pre = U.PRE + '''Fixpoint bad_idx {A} (f : A -> bool) (n : N) (l : list A) : list N := match l with [] => [] | x :: r => (if f x then [] else [n]) ++ bad_idx f (n + 1) r end.
 '''
     bad: list[int] = []
     for lo in range(0, len(cases), 500):
         part = cases[lo:lo + 500]
         lit = coq_list(f'(({"true" if ml else "false"}, {coq_str(s)}), {coq_str(e)})' for ml, s, e in part)
-        vals = ck.coq_eval(U.IMPORTS, [f'bad_idx (fun c : (bool * list N) * list N => nl_eqb (escape gen_tables (fst (fst c)) (snd (fst c))) (snd c)) 0 {lit}'],
+        vals = ck.coq_eval(U.IMPORTS, [f'bad_idx (fun c : (bool * list N) * list N => nl_eqb (gen_escape (fst (fst c)) (snd (fst c))) (snd c)) 0 {lit}'],
                            name='escstr', preamble=pre)
         if vals is None:
             ok = False
@@ -426,9 +457,13 @@ def run(ck: Ck) -> None:
             'no_escape_symbol_is_a_linebreak': 'tbl_sym_no_linebreak gen_tables',
             'dquote_is_not_an_operator': 'dq_not_operator gen_tables',
             'replacement_is_backslash_plus_symbol': 'esc_prefix_is_backslash',
+            'escape_text_steps_wellformed': 'escape_rows_wellformed',
+            'escape_text_is_one_table_substitution_single': 'escape_is_one_substitution false',
+            'escape_text_is_one_table_substitution_multi': 'escape_is_one_substitution true',
             'token_enum_values_distinct': 'token_values_distinct',
             'operators_name_known_tokens': 'operators_all_known',
         })
+        model_counterexamples(ck)
         corr_codepoints(ck)
         corr_escape_strings(ck, escalate)
         corr_quoted(ck, escalate)
@@ -462,8 +497,8 @@ def replay(data: dict) -> int:
         except Exception as e:  # noqa: BLE001
             print('tokenizer raised', repr(e))
         res = oracle(s, ml, **kw)
-    mv = U.model_eval([f'escape gen_tables {"true" if ml else "false"} {coq_str(s)}',
-                       f'tok_case {BITS_ESC} (DQ :: escape gen_tables {"true" if ml else "false"} {coq_str(s)} ++ [DQ])'])
+    mv = U.model_eval([f'gen_escape {"true" if ml else "false"} {coq_str(s)}',
+                       f'tok_case {BITS_ESC} (DQ :: gen_escape {"true" if ml else "false"} {coq_str(s)} ++ [DQ])'])
     if mv is not None:
         me = ''.join(map(chr, parse_coq_N_list(mv[0])))
         t = parse_coq_N_list(mv[1])
